@@ -1068,7 +1068,27 @@ def assembly(facts, rep, R4):
             rep.ok(R4, {"fn": b.name, "pixels_at": "header.texture_ptr + info.texture_ptr"})
             rep.inconc(R4, "ctpk::read: how the texture name is located (reference: info.filename_ptr) was not recognised")
         elif not any("texture_ptr" in d_ for d_ in descr):
-            rep.inconc(R4, "ctpk::read: absolute seeks use %s; the seek to the pixel data was not recognised" % descr)
+            # Witness for a definite verdict: the record type still has its `texture_ptr` field and the whole analysis
+            # view of read() (helpers spliced in, nothing crate-local left as a call, no closures) never *reads* it.
+            # Then no seek can depend on a texture's own recorded offset, so a conforming file that places a later
+            # payload anywhere but where the reader's own bookkeeping puts it is decoded from the wrong bytes.
+            # Anything less (field renamed or gone, an unexpanded helper) stays undecided.
+            import json as _json
+            rec = [a for a in facts.adts if a.startswith("mila::ctpk::") and a != "mila::ctpk::Header"
+                   and any(fl["name"] == "texture_ptr" for v in facts.adts[a]["variants"] for fl in v["fields"])]
+            reads = 0
+            for bi, si, s_ in b.stmts():
+                if s_.get("k") == "assign":
+                    reads += sum(1 for a in rec if '"name": "texture_ptr", "adt": "%s"' % a in _json.dumps(s_.get("rv")))
+            for bi, t_ in b.calls():
+                reads += sum(1 for a in rec if '"name": "texture_ptr", "adt": "%s"' % a in _json.dumps(t_.get("args")))
+            # the loop must be in view: the name seek recognised, a second absolute seek present, and no closure of
+            # read() (spliced or not: a closure handed to map/collect is not a crate-local *call*) that could hold the read
+            in_view = len(descr) == 2 and descr[0] == ["filename_ptr"] and not facts.closures_of(b)
+            if rec and reads == 0 and in_view and not unexpanded_calls(facts, b):
+                rep.violation(R4, b.name, "ctpk-record-offset", "absolute seeks use %s and %s.texture_ptr is never read in ctpk::read: a texture's pixel data is not located by its own recorded offset (reference: header.texture_ptr + info.texture_ptr)" % (descr, rec[0]), "%s:%s" % (b.file, b.line))
+            else:
+                rep.inconc(R4, "ctpk::read: absolute seeks use %s; the seek to the pixel data was not recognised" % descr)
         else:
             rep.violation(R4, b.name, "ctpk-bases", "absolute seeks use %s (reference: filename_ptr ; header.texture_ptr + info.texture_ptr)" % descr, "%s:%s" % (b.file, b.line))
     # TPL assembly
